@@ -19,7 +19,8 @@ def bounds(tier):
 
 
 def slices(tier, rng):
-    return [Slice('items-ps%d' % ps, 't_items', 8, lambda a, ps=ps: [a[0] == ps] + [z3.ULE(a[i], 1) for i in range(1, 7)] + [z3.ULE(a[7], 5), z3.Implies(z3.Or(a[1] != 0, a[3] != 0, a[4] != 0, a[6] != 0), a[7] == 0)],
+    return [Slice('items-ps%d' % ps, 't_items', 9, lambda a, ps=ps: [a[0] == ps] + [z3.ULE(a[i], 1) for i in range(1, 7)] + [z3.ULE(a[7], 5), z3.Implies(z3.Or(a[1] != 0, a[3] != 0, a[4] != 0, a[6] != 0), a[7] == 0),
+                                                                     z3.ULE(a[8], 1), z3.Implies(z3.Or(a[3] != 0, a[6] != 0), a[8] == 0)],
                   opts={'must_reach': ['ok']}) for ps in (4, 8)]
 
 
@@ -38,6 +39,9 @@ def leaf_queries(I, a, leaf, py, sl):
     else:
         T = Item(its['m::T'])
         if T.kind != 'type' or [r.name for r in T.regions if r.name != 'vftable'] != ['a']: bad.append(z3.BoolVal(True))
+    # one generated table type for every type that declares a vftable block, also an empty one
+    has_tab = paths_of('m').count('m::TVftable')
+    bad.append(z3.If(z3.Or(a[3] != 0, a[6] != 0, a[8] != 0), z3.BoolVal(has_tab != 1), z3.BoolVal(has_tab != 0)))
     has_n = 'n::T' in its
     bad.append(z3.BoolVal(has_n) != (a[5] != 0))
     if has_n and (paths_of('n') != ['n::T'] or [r.name for r in Item(its['n::T']).regions] != ['c']): bad.append(z3.BoolVal(True))
@@ -85,8 +89,11 @@ def file_check(summ, files, args):
                     problems.append('backend text `%s` occurs %d times in %s' % (t, len(_re.findall(r'\bconst\s+%s\b' % ident.group(1), text)), fn))
         # prologues precede the items, epilogues follow them, both in source order
         pos = [text.find('const P%d' % i) for i in (1, 2, 3) if 'const P%d' % i in text] + [text.find('struct ')] + \
+              [text.find('fn get_%s' % ev[2]) for ev in m[4]] + \
               [text.find('const E%d' % i) for i in (1, 2, 3) if 'const E%d' % i in text]
-        if m[5] and pos != sorted(pos): problems.append('backend blocks out of order in %s' % fn)
+        for ev in m[4]:
+            if len(_re.findall(r'\bfn get_%s\b' % _re.escape(ev[2]), text)) != 1: problems.append('accessor get_%s occurs %d times in %s' % (ev[2], len(_re.findall(r'\bfn get_%s\b' % _re.escape(ev[2]), text)), fn))
+        if pos != sorted(pos) or -1 in pos: problems.append('prologues, items, accessors and epilogues are not in this order in %s' % fn)
         for cb in ('CP', 'CE'):
             if _re.search(r'\b%s\b' % cb, text): problems.append('text of another backend in %s' % fn)
     extra = set(files) - want_files
@@ -95,7 +102,7 @@ def file_check(summ, files, args):
 
 
 FILE_CHECK = {'template': 't_items', 'max_quick': 24, 'max_thorough': 64, 'fn': file_check,
-              'fixed': [[8, 0, 0, 0, 0, 1, 0, 5], [8, 0, 0, 0, 0, 1, 0, 3], [8, 0, 0, 0, 0, 0, 0, 4]]}
+              'fixed': [[8, 0, 0, 0, 0, 1, 0, 5, 0], [8, 0, 0, 0, 0, 1, 0, 3, 1], [8, 0, 0, 0, 0, 0, 0, 4, 0], [8, 0, 0, 0, 0, 0, 0, 0, 1]]}
 
 
 def region_env(a, sl): return {}
@@ -104,11 +111,12 @@ def region_env(a, sl): return {}
 def describe(template, args):
     a = [int(x) for x in args]
     out = ['// pointer size %d' % a[0], 'module m:']
-    out.append('  pub type T { %spub a: *const u8 }' % ('vftable { pub fn f(&self); }, ' if (a[3] or (len(a) > 6 and a[6])) else ''))
+    out.append('  pub type T { %spub a: *const u8 }' % ('vftable { pub fn f(&self); }, ' if (a[3] or (len(a) > 6 and a[6])) else 'vftable {}, ' if (len(a) > 8 and a[8]) else ''))
     if a[1]: out.append('  pub enum T: u32 { A }' if a[2] else '  #[align(8)] pub type T { pub b: u64 }')
     if a[3]: out.append('  pub type TVftable { pub z: *const u8 }')
     if a[4]: out.append('  #[size(4), align(4)] extern type T;')
     if len(a) > 6 and a[6]: out.append('  #[size(64), align(8)] extern type TVftable;   (T has a vftable block)')
+    out.append('  #[address(64)] pub extern ev: u32;')
     if len(a) > 7 and a[7]: out.append('  backend blocks: ' + {1: 'rust', 2: 'rust, rust', 3: 'rust, cpp, rust', 4: 'cpp, rust', 5: 'rust, rust, cpp, rust'}.get(a[7], '?'))
     if a[5]: out.append('module n:\n  pub type T { pub c: *mut u8 }')
     return '\n'.join(out)
